@@ -104,6 +104,7 @@ class State:
         self.objheap = {}
         self.ghost = {}
         self.ents = {}
+        self.alloc = z3.Const("alloc0", z3.ArraySort(ObjSort, z3.BoolSort()))
 
     def snapshot(self):
         s = State()
@@ -114,6 +115,7 @@ class State:
         s.objheap = dict(self.objheap)
         s.ghost = dict(self.ghost)
         s.ents = self.ents
+        s.alloc = self.alloc
         return s
 
 
@@ -174,6 +176,7 @@ class Exec:
         if isinstance(ty, TObj):
             t = z3.Const(name, ObjSort); rec(name, t)
             v = VObj(t, ty.cls)
+            self.assume(z3.Or(t == PyNone, self.st.alloc[t]))
             if ty.cls and ty.cls.startswith("nn:"):
                 v.cls = ty.cls[3:]
                 self.assume(t != PyNone)
@@ -192,12 +195,12 @@ class Exec:
             for f, fty in self.reg.entities[ty.cls].items():
                 self.init_field(oid, f, fty, "%s.%s" % (name, f), record_input)
             return VEnt(oid, ty.cls)
-        if isinstance(ty, (TDict, TOrdSet, TList, TSet)):
+        if isinstance(ty, (TDict, TOrdSet, TList, TSet, TStack)):
             return self.new_box(self.symcont(ty, name, record_input))
         raise Unsupported("sym of %r" % ty)
 
     def init_field(self, oid, f, fty, name, record_input=False):
-        if isinstance(fty, (TDict, TOrdSet, TList, TSet)):
+        if isinstance(fty, (TDict, TOrdSet, TList, TSet, TStack)):
             self.st.conts[("f", oid, f)] = self.symcont(fty, name, record_input)
             self.st.fields[(oid, f)] = VCont(("f", oid, f))
         else:
@@ -216,6 +219,9 @@ class Exec:
                 sums[m] = z3.Int(name + "#sum_" + m); rec(name + "#sum_" + m, sums[m])
                 nonneg[m] = z3.Bool(name + "#nonneg_" + m)
             d = DictV(ty, has, val, cnt, sums, nonneg)
+            if isinstance(ty.v, TObj):
+                al = self.st.alloc
+                self.add_universal([ty.k], lambda k: z3.Or(val[k] == PyNone, al[val[k]]), "reachable-objects-are-allocated")
             if ty.ordered:
                 d.order = self.symcont(TList(ty.k), name + "#order")
                 d.order.idx = z3.Const(name + "#order#idx", z3.ArraySort(ty.k.sort(), z3.IntSort()))
@@ -236,6 +242,9 @@ class Exec:
             n = z3.Int(name + "#len")
             rec(name + "#arr", arr); rec(name + "#len", n)
             self.assume(n >= 0)
+            if isinstance(ty.e, TObj):
+                al = self.st.alloc
+                self.add_universal([TInt], lambda i: z3.Or(arr[i] == PyNone, al[arr[i]]), "reachable-objects-are-allocated")
             return ListV(ty, arr, n)
         if isinstance(ty, TSet):
             mem = z3.Const(name + "#mem", z3.ArraySort(ty.e.sort(), z3.BoolSort()))
@@ -243,6 +252,9 @@ class Exec:
             rec(name + "#mem", mem); rec(name + "#count", cnt)
             self.assume(cnt >= 0)
             return SetV(ty, mem, cnt)
+        if isinstance(ty, TStack):
+            some = z3.Bool(name + "#nonempty"); rec(name + "#nonempty", some)
+            return StackV(ty, some, self.sym(ty.e, name + "#top", record_input), [])
         raise Unsupported("symcont %r" % ty)
 
     def ordset_wf(self, o):
@@ -420,11 +432,56 @@ class Exec:
             l = self.st.alias[l]
         return l
 
+    def heap_component(self, name, sort):
+        if name not in self.st.objheap:
+            self.st.objheap[name] = z3.Const("heap0_" + name, z3.ArraySort(ObjSort, sort))
+        return self.st.objheap[name]
+
     def cont(self, v):
-        return self.st.conts[self.loc(v)]
+        l = self.loc(v)
+        if l[0] == "h":
+            _, attr, obj = l
+            ty = self.reg.attrs[attr][0]
+            if isinstance(ty, TSet):
+                mem = self.heap_component(attr + "#mem", z3.ArraySort(ty.e.sort(), z3.BoolSort()))[obj]
+                cnt = self.heap_component(attr + "#count", z3.IntSort())[obj]
+                return SetV(ty, mem, cnt)
+            if isinstance(ty, TList):
+                arr = self.heap_component(attr + "#arr", z3.ArraySort(z3.IntSort(), ty.e.sort()))[obj]
+                n = self.heap_component(attr + "#len", z3.IntSort())[obj]
+                self.assume(n >= 0)
+                return ListV(ty, arr, n)
+            raise Unsupported("heap container of type %r" % ty)
+        return self.st.conts[l]
 
     def set_cont(self, v, c):
-        self.st.conts[self.loc(v)] = c
+        l = self.loc(v)
+        if l[0] == "h":
+            _, attr, obj = l
+            ty = self.reg.attrs[attr][0]
+            if isinstance(c, EmptyV):
+                c = self.empty_of(ty)
+            if isinstance(ty, TSet):
+                self.st.objheap[attr + "#mem"] = z3.Store(self.heap_component(attr + "#mem", c.mem.sort()), obj, c.mem)
+                self.st.objheap[attr + "#count"] = z3.Store(self.heap_component(attr + "#count", z3.IntSort()), obj, c.count)
+            elif isinstance(ty, TList):
+                self.st.objheap[attr + "#arr"] = z3.Store(self.heap_component(attr + "#arr", c.arr.sort()), obj, c.arr)
+                self.st.objheap[attr + "#len"] = z3.Store(self.heap_component(attr + "#len", z3.IntSort()), obj, c.n)
+            else:
+                raise Unsupported("heap container of type %r" % ty)
+            return
+        self.st.conts[l] = c
+
+    def empty_of(self, ty):
+        tmp = self.new_box(EmptyV("x"))
+        return self.materialize(tmp, ty)
+
+    def fresh_obj(self, cls):
+        """Allocate a new opaque object: distinct from None and from every object that exists so far."""
+        o = self.fresh("new_" + cls, ObjSort)
+        self.assume(z3.And(o != PyNone, z3.Not(self.st.alloc[o])))
+        self.st.alloc = z3.Store(self.st.alloc, o, True)
+        return o
 
     def materialize(self, v, ty):
         c = self.cont(v)
@@ -485,6 +542,9 @@ class Exec:
                 g = z3.Function("un" + nm, ObjSort, srt)
                 t = f(v.t)
                 self.assume(z3.And(g(t) == v.t, t != PyNone, z3.Function("kind_of", ObjSort, z3.IntSort())(t) == list(table).index(cls) + 1))
+                truthy = z3.Function("py_truthy", ObjSort, z3.BoolSort())
+                tv = {VStr: lambda x: z3.Length(x) > 0, VInt: lambda x: x != 0, VBool: lambda x: x, VReal: lambda x: x != 0}[cls](v.t)
+                self.assume(truthy(t) == tv)
                 return t
         if isinstance(v, VRec):
             f = z3.Function("box_rec_" + v.ty.name, v.ty.sort(), ObjSort)
@@ -494,6 +554,10 @@ class Exec:
             return t
         if isinstance(v, VOpt):
             return z3.If(v.isnone, PyNone, self.box(v.val))
+        if isinstance(v, VExc):
+            if v.tag is None:
+                v.tag = self.fresh_obj("exc_" + v.cls)
+            return v.tag
         raise Unsupported("cannot box %r into Obj" % (v,))
 
     def to_term(self, v, ty):
